@@ -34,6 +34,12 @@ func r10paths(c *core.Ctx, fn *ssa.Function) {
 		return
 	}
 	p := core.NewPather(fn)
+	// helpers of the same package are seen through: their counter operations and branches belong
+	// to the paths of this function (a step moved into a helper is still the same step)
+	p.InlineCalls = func(call *ssa.Call) bool {
+		callee := call.Call.StaticCallee()
+		return callee != nil && fnPkgPath(callee) == pTglib && callee.Name() != "EncodeNasPduWithSecurity"
+	}
 	type cryptoCall struct {
 		name string
 		args []string
